@@ -101,6 +101,7 @@ class Case final : public sim::CaseBase {
     r.granted = sim::Seq();
     if (IsShared(r.form)) {
       ++readers_in;
+      sim::RaceRead(&cell, sizeof cell);
       if (writers_in != 0) {
         sim::Fail("READER_WITH_WRITER", "coroutine %d got a shared lock (%s) while a writer is inside", w, kFormNames[r.form]);
       }
@@ -115,6 +116,7 @@ class Case final : public sim::CaseBase {
       if (readers_in != 0) {
         sim::Fail("WRITER_WITH_READERS", "coroutine %d got the exclusive lock (%s) while %d readers are inside", w, kFormNames[r.form], readers_in);
       }
+      sim::RaceRead(&cell, sizeof cell);
       before = cell;
     }
   }
@@ -125,6 +127,7 @@ class Case final : public sim::CaseBase {
       }
       --readers_in;
     } else {
+      sim::RaceWrite(&cell, sizeof cell);
       cell = before + 1;
       if (writers_in != 1 || readers_in != 0) {
         sim::Fail("WRITER_WITH_READERS", "somebody entered while writer coroutine %d was inside (writers %d readers %d)", w, writers_in, readers_in);
